@@ -28,7 +28,7 @@ run)
     ( cd /verif && cargo +1.92 build --manifest-path $R/Cargo.toml -p warcraft-rs -p storm-ffi --target-dir $T-repo --offline 2>&1 | grep -E "^error" -A6 | head -10 )
     export VERIF_CLI=$T-repo/debug/warcraft-rs VERIF_LIBSTORM=$T-repo/debug/libstorm.so ;;
   esac
-  cd /verif && VERIF_C05_FUZZ=${VERIF_C05_FUZZ:-0} VERIF_ROOT=$L/out VERIF_LIBSTORM=${VERIF_LIBSTORM:-/verif/target/repo/debug/libstorm.so} timeout 3600 $T/debug/$BIN "$@" > $L/last.out 2>&1
+  cd /verif && VERIF_C05_FUZZ=${VERIF_C05_FUZZ:-0} VERIF_C03_FUZZ=${VERIF_C03_FUZZ:-0} VERIF_ROOT=$L/out VERIF_LIBSTORM=${VERIF_LIBSTORM:-/verif/target/repo/debug/libstorm.so} timeout 3600 $T/debug/$BIN "$@" > $L/last.out 2>&1
   echo "exit=$?"
   grep -E "^C[0-9]+ tier|signature:" $L/last.out | sort | uniq -c | sort -rn | head -12
   cd $R && git checkout -q -- .;;
